@@ -63,7 +63,9 @@ HDR = {
     "BadName": [b"X Foo: bar", b"(X): y", b": empty", b"X\x00Y: z", b"X\xe9: z", b"X@Y: z", b"X,Y: z",
                 b"Content-Length\x0b: 3", b"\x0cTransfer-Encoding: chunked"],
     "NulVal": [b"X-Foo: a\x00b", b"X-Foo: a\rb", b"X-Foo: a\nb", b"X-Foo: \x00", b"Content-Length: 1\x00",
-               b"X-Foo: a\n", b"X_Foo: a\x00b", b"X_Under: a\rb", b"x_pad: a\nb", b"X_Forwarded_For: 1.2.3.4\x00"],
+               b"X-Foo: a\n", b"X_Foo: a\x00b", b"X_Under: a\rb", b"x_pad: a\nb", b"X_Forwarded_For: 1.2.3.4\x00",
+               # the forbidden byte on the continuation of a folded spelling (refused either as folding or as the byte)
+               b"X-Foo: a\r\n b\x00c", b"X-Note: a\r\n\tb\rc", b"X-Note:\r\n a\nX-Injected: 1", b"Content-Length:\r\n 1\x00"],
     "NoColon": [b"X-Foo bar", b"Content-Length 3", b"x", b"Transfer-Encoding chunked"],
     "ConnClose": [b"Connection: close", b"connection: Close", b"Connection:  close\t", b"CONNECTION:CLOSE"],
     "ConnKeep": [b"Connection: keep-alive", b"Connection: Keep-Alive", b"connection:keep-alive "],
